@@ -8,6 +8,9 @@
 //!   contract <seed> <n>       from_json bytes are the contract-side encoding (from_bytes::<T>)
 //!   leaf <seed> <n>           text forms of the opaque leaves parse back
 //!   obs                       observations O1 / O2 (outside the claim)
+//!   leb <seed> <n>            ULeb128/ILeb128: shortest / padded / near-miss encodings at the constraint's boundaries
+//!   new <seed> <n> <depth>    VersionedModuleSchema::new on (un)versioned / damaged bytes with every kind of hint
+//!   b64 <seed> <n>            base64 STANDARD_NO_PAD: canonical, trailing bits, padding, bad symbols / lengths
 use base64::{engine::general_purpose, Engine};
 use concordium_contracts_common::{
     from_bytes, schema::*, to_bytes, AccountAddress, Amount, ContractAddress, Cursor, Deserial, Duration,
@@ -994,6 +997,111 @@ fn mode_obs(max_log2: u64) {
     }
 }
 
+// ------------------------------------------------------------------------------------------ mode leb
+/// LEB128 schema types: accepted / padded / near-miss encodings at the boundaries of the constraint.
+fn mode_leb(seed: u64, n: u64) {
+    let mut r = Rng::new(seed ^ 0x1eb);
+    for i in 0..n {
+        let signed = r.chance(1, 2);
+        let c: u32 = match r.below(8) { 0 => 0, 1 => 1, 2 => 2, 3 | 4 => 5, 5 => 10, 6 => 37, _ => r.range(1, 12) as u32 };
+        let t = if signed { Type::ILeb128(c) } else { Type::ULeb128(c) };
+        let big = if signed { Type::ILeb128(64) } else { Type::ULeb128(64) };
+        let (kind, mut bytes): (&str, Vec<u8>) = if r.chance(4, 5) {
+            // a boundary value in its shortest form (written under a wide constraint), then padded
+            let cc = if r.chance(1, 4) { r.range(1, 38) as u32 } else { c.max(1) };
+            let text = if signed { gen_ileb_text(&mut r, cc) } else { gen_uleb_text(&mut r, cc) };
+            let canon = guarded(|| big.serial_value(&Value::String(text.clone()))).ok().and_then(|x| x.ok());
+            match canon {
+                None => ("random", { let k = r.range(0, 6) as usize; r.bytes(k) }),
+                Some(mut b) => {
+                    let neg = signed && (b[b.len() - 1] & 0x40) != 0;
+                    let extra = match r.below(6) { 0 | 1 => 0, 2 => 1, 3 => (c as i64 - b.len() as i64).max(0) as usize, 4 => (c as i64 + 1 - b.len() as i64).max(0) as usize, _ => r.range(1, 4) as usize };
+                    if extra == 0 { ("shortest", b) } else {
+                        let l = b.len();
+                        b[l - 1] |= 0x80;
+                        for _ in 1..extra { b.push(if neg { 0xff } else { 0x80 }); }
+                        b.push(if neg { 0x7f } else { 0x00 });
+                        match r.below(6) {
+                            0 => { let k = r.below(b.len() as u64) as usize; b[k] ^= 1 << r.below(8); ("padded_bitflip", b) }
+                            1 => { let l2 = b.len(); b[l2 - 1] = if neg { 0x00 } else { 0x7f }; ("padded_wrong_sign", b) }
+                            _ => ("padded", b),
+                        }
+                    }
+                }
+            }
+        } else { ("random", { let k = r.range(0, 12) as usize; r.bytes(k) }) };
+        if r.chance(1, 3) { let k = r.range(1, 3) as usize; bytes.extend(r.bytes(k)); }
+        let mut line = json!({"i": i, "s": signed, "c": c, "kind": kind, "bytes": hex(&bytes)});
+        match to_json_full(&t, &bytes) {
+            Err(p) => { line["out"] = json!("PANIC"); line["panic"] = json!(short(&p)); }
+            Ok(Err(e)) => { line["out"] = json!("ERR"); line["err"] = json!(e); }
+            Ok(Ok((v, used))) => {
+                line["out"] = json!({"v": v, "used": used});
+                line["back"] = match guarded(|| t.serial_value(&v)) { Ok(Ok(b)) => json!(hex(&b)), Ok(Err(_)) => json!("ERR"), Err(_) => json!("PANIC") };
+            }
+        }
+        println!("{}", line);
+    }
+}
+
+// ------------------------------------------------------------------------------------------ mode new
+fn new_result_desc(x: Result<Result<VersionedModuleSchema, VersionedSchemaError>, String>) -> Value {
+    match x {
+        Err(p) => json!({"k": "PANIC", "panic": short(&p)}),
+        Ok(Ok(m)) => json!({"k": "ok", "bytes": hex(&to_bytes(&m))}),
+        Ok(Err(VersionedSchemaError::ParseError)) => json!({"k": "parse"}),
+        Ok(Err(VersionedSchemaError::MissingSchemaVersion)) => json!({"k": "missing"}),
+        Ok(Err(VersionedSchemaError::InvalidSchemaVersion)) => json!({"k": "invalid"}),
+        Ok(Err(e)) => json!({"k": format!("other:{:?}", e)}),
+    }
+}
+/// VersionedModuleSchema::new on versioned / unversioned / damaged bytes with every kind of hint.
+fn mode_new(seed: u64, n: u64, depth: u32) {
+    let mut g = Gen { r: Rng::new(seed ^ 0x4e57), dup: false, hostile: false, tbudget: 0, vbudget: 0 };
+    for i in 0..n {
+        g.tbudget = 12;
+        let ver = g.r.below(4) as u8;
+        let m = gen_module(&mut g, ver, depth.min(2));
+        let (form, mut bytes) = if g.r.chance(1, 2) { ("unversioned", unversioned_bytes(&m)) } else { ("versioned", to_bytes(&m)) };
+        let dmg = match g.r.below(8) {
+            0 => { let k = g.r.range(1, 3) as usize; let t = g.r.bytes(k); bytes.extend(t); "tail" }
+            1 if !bytes.is_empty() => { let k = g.r.below(bytes.len() as u64) as usize; bytes.truncate(k); "truncated" }
+            2 if !bytes.is_empty() => { let k = g.r.below(bytes.len().min(8) as u64) as usize; bytes[k] = *g.r.pick(&[0u8, 1, 2, 3, 4, 255]); "byte" }
+            3 => { let mut p = vec![255u8, 255, *g.r.pick(&[0u8, 1, 2, 3, 4, 255])]; p.extend(bytes.iter()); bytes = p; "prefixed" }
+            _ => "none",
+        };
+        if bytes.len() > 1500 { continue; }
+        let hints: Vec<Option<u8>> = vec![None, Some(0), Some(1), Some(2), Some(3), Some(4), Some(*g.r.pick(&[5u8, 17, 254, 255]))];
+        let res: Vec<Value> = hints.iter().map(|h| json!({"hint": h, "r": new_result_desc(guarded(|| VersionedModuleSchema::new(&bytes, h)))})).collect();
+        println!("{}", json!({"i": i, "form": form, "dmg": dmg, "ver": ver, "bytes": hex(&bytes), "vbytes": hex(&to_bytes(&m)), "res": res}));
+    }
+}
+
+// ------------------------------------------------------------------------------------------ mode b64
+/// base64 as used by from_base64_str (STANDARD_NO_PAD): canonical strings, trailing bits, padding, bad symbols, bad lengths.
+fn mode_b64(seed: u64, n: u64) {
+    let mut r = Rng::new(seed ^ 0xb64);
+    const ALPHA: &[u8] = b"ABCDEFGHIJKLMNOPQRSTUVWXYZabcdefghijklmnopqrstuvwxyz0123456789+/";
+    for i in 0..n {
+        let len = match r.below(6) { 0 => r.range(0, 3), 1 => r.range(0, 9), _ => r.range(0, 40) } as usize;
+        let data = match r.below(4) { 0 => vec![255u8; len], 1 => vec![0u8; len], _ => r.bytes(len) };
+        let enc = general_purpose::STANDARD_NO_PAD.encode(&data);
+        let mut s: Vec<u8> = enc.clone().into_bytes();
+        let kind = match r.below(10) {
+            0 | 1 | 2 => "canonical",
+            3 if !s.is_empty() && s.len() % 4 != 0 => { let l = s.len(); let v = ALPHA.iter().position(|&x| x == s[l - 1]).unwrap(); let bits = if l % 4 == 2 { 4 } else { 2 }; let nv = v | (1 + r.below((1 << bits) - 1) as usize); s[l - 1] = ALPHA[nv]; "trailing_bits" }
+            4 => { let pads = if s.len() % 4 == 0 { r.range(1, 2) as usize } else { 4 - s.len() % 4 }; for _ in 0..pads { s.push(b'='); } "padded" }
+            5 => { s.push(*r.pick(ALPHA)); "one_more_symbol" }
+            6 if !s.is_empty() => { let k = r.below(s.len() as u64) as usize; s[k] = *r.pick(&[b'=', b'-', b'_', b' ', b'\n', b'@', b'[', b'`', b'{', b'.', 0u8, 200u8 & 0x7f, b':']); "bad_symbol" }
+            7 => { let k = r.range(0, 6) as usize; s = (0..k).map(|_| *r.pick(ALPHA)).collect(); "random_symbols" }
+            8 => { let k = r.range(0, 6) as usize; s = (0..k).map(|_| (r.below(128)) as u8).collect(); "random_ascii" }
+            _ => "canonical",
+        };
+        let dec = match guarded(|| general_purpose::STANDARD_NO_PAD.decode(&s)) { Ok(Ok(b)) => json!(hex(&b)), Ok(Err(_)) => json!("ERR"), Err(_) => json!("PANIC") };
+        println!("{}", json!({"i": i, "kind": kind, "data": hex(&data), "enc": hex(enc.as_bytes()), "s": hex(&s), "dec": dec}));
+    }
+}
+
 fn main() {
     quiet_panics();
     let a: Vec<String> = std::env::args().collect();
@@ -1005,6 +1113,9 @@ fn main() {
         "contract" => mode_contract(num(2), num(3)),
         "leaf" => mode_leaf(num(2), num(3)),
         "obs" => mode_obs(num(2)),
+        "leb" => mode_leb(num(2), num(3)),
+        "new" => mode_new(num(2), num(3), num(4) as u32),
+        "b64" => mode_b64(num(2), num(3)),
         _ => panic!("mode"),
     }
 }
